@@ -69,7 +69,9 @@ def gen_country(rng, key, role, n, allow_portfolio, grid=True):
     second = None
     if rng.random() < 0.25:
         # a second market in the same country, supplied by the same firm and bought by the government
-        second = {'G2': path(rng, n, 2, 9)}
+        second = {'G2': path(rng, n, 2, 9),
+                  # the household buys there too: a second outflow that the USER excludes from its income
+                  'hh_share': rng.choice([None, 0.05, 0.1, 0.125])}
     return {'key': key, 'role': role, 'hh': hh, 'cap': cap, 'firm': firm, 'G': path(rng, n, 10, 30),
             'custom': custom, 'second_market': second}
 
@@ -190,7 +192,7 @@ def gen_spec(rng, n_zones=None, allow_fed=True, ext=None, maxtime=None, grid=Tru
     return spec
 
 
-def gen_federation_with_region_asset_markets(rng, maxtime=None, all_tobin=False):
+def gen_federation_with_region_asset_markets(rng, maxtime=None, all_tobin=False, caps=False):
     """One federation whose money and deposit markets are declared in a region while the issuer sits in the central
     country; interest-bearing deposits held by a regional household; a non-zero interest rate from the start."""
     spec = None
@@ -211,12 +213,35 @@ def gen_federation_with_region_asset_markets(rng, maxtime=None, all_tobin=False)
         hh['portfolio'] = 'share'
         hh['share'] = rng.choice([0.25, 0.5, 0.6])
         hh['F0'] = hh['F0'] or float(rng.randint(40, 120))
+    if caps:
+        # every region has its own capitalists and its own profitable single-output firm (different margins)
+        z['internal_imports'] = []
+        for i, c in enumerate(regs):
+            c['firm'] = {'form': 'fixed', 'margin': [0.1, 0.25, 0.125][i % 3]}
+            c['cap'] = {'ai': [0.6, 0.5, 0.7][i % 3], 'af': [0.2, 0.3, 0.25][i % 3]}
+            c['second_market'] = None
     if all_tobin:
         for c in regs:
             c['hh']['portfolio'] = 'tobin'
             c['hh']['F0'] = c['hh']['F0'] or float(rng.randint(40, 120))
             c['hh'].setdefault('share', 0.5)
     return spec
+
+
+def force_two_markets_with_household_buyer(rng, spec):
+    """The first country proper gets a second market in which both the government and the household buy (the household's
+    purchase excluded from its income by the user); returns the codes that make the two market codes prefix-related
+    and the labour market non-default."""
+    c = [c_ for c_ in spec['zones'][0]['countries'] if c_['role'] != 'central'][0]
+    n = spec['maxtime'] + 3
+    c['second_market'] = {'G2': path(rng, n, 2, 9), 'hh_share': rng.choice([0.05, 0.1, 0.125])}
+    if spec['zones'][0]['kind'] != 'federation':
+        c['firm'] = {'form': 'fixed', 'margin': c['firm'].get('margin', 0.0) if c.get('cap') else 0.0}
+    lab = rng.choice(['WORK', 'LAB_N', 'L'])
+    if rng.random() < 0.5:
+        return {c['key']: {'SRV': rng.choice(['GOOD2', 'GOOD_N', 'GOODS']), 'LAB': lab}}
+    # ... or the goods market (declared first in the canonical order) carries the longer code
+    return {c['key']: {'GOOD': rng.choice(['SRV2', 'SRV_N', 'SRVS']), 'LAB': lab}}
 
 
 def ensure_cross_import(rng, spec):
@@ -509,6 +534,10 @@ def _build(spec, model=None, holder=None, order_seed=None, codes=None, ckey_map=
                 v2 = 'DEM_' + (scode if c['role'] == 'single' else '%s_%s' % (ckey_map.get(ck, ck), scode))
                 gov.AddVariable(v2, 'Government demand for services', '')
                 gov.SetExogenous(v2, list(c['second_market']['G2']))
+                if c['second_market'].get('hh_share'):
+                    hh2 = S[(ck, 'HH')]
+                    hh2.AddVariable('DEM_' + scode, 'Household demand for services', '%r * AfterTax' % (c['second_market']['hh_share'],))
+                    mod.AddCashFlowIncomeExclusion(hh2, 'DEM_' + scode)
             hh = S[(ck, 'HH')]
             hs = c['hh']
             if hs['F0'] is not None:
@@ -640,7 +669,7 @@ def shape_of(spec):
         f = z['gov']['form'][:4] + ('+m' if z['gov']['money'] else '') + ('+d' if z['gov']['deposits'] else '')
         regs = [c for c in z['countries'] if c['role'] != 'central']
         firms = ''.join(sorted(set(c['firm']['form'][0] + ('c' if c.get('cap') else ('r' if c['firm'].get('margin') else '')) + ('u' if c.get('custom') else '') +
-                                   ('2' if c.get('second_market') else '')
+                                   (('2h' if c['second_market'].get('hh_share') else '2') if c.get('second_market') else '')
                                    for c in regs)))
         port = ''.join(sorted(set((c['hh']['portfolio'] or '-')[0] for c in regs)))
         parts.append('%s:%s:%s:%s' % ('fed' if z['kind'] == 'federation' else 'one', f, firms, port))
